@@ -161,6 +161,8 @@ ColumnReportOK(c, p) ==
     /\ p.unique = HasCons(c, "unique")
     /\ p.collate = (IF HasCons(c, "collate") THEN LastCons(c, "collate").c ELSE "")
     /\ p.hasdefault = HasCons(c, "default")
+    \* the value of a literal default is the one its own text denotes (dv = "?": a form not compared)
+    /\ \A j \in 1..Len(c.cons) : (c.cons[j].k = "default" /\ c.cons[j].dv # "?") => p.defaultval = c.cons[j].dv
     /\ p.ncheck = NCons(c, "check")
     /\ p.references = HasCons(c, "references")
     \* NULL / NOT NULL: the last one written wins, default nullable
